@@ -278,14 +278,19 @@ def replay(ctx, payload):
     return 0 if rc == 0 else 2
 
 
-CLAIM = {'note': 'Trusted: Coq kernel + vm_compute; the Python-side stub evaluator and reifier (render_impl.py); CPython typing '
-         'repr/Union semantics as modelled. Text level is tied by a per-case boolean premise, not by the unproved '
-         'replace_tokenwise lemma.',
+CLAIM = {'note': 'Trusted: Coq kernel + vm_compute; the Python-side stub evaluator and reifier (render_impl.py); CPython '
+         'typing repr/Union semantics as modelled. Text level is tied by a per-case boolean premise, not by the '
+         'unproved replace_tokenwise lemma.',
  'ref': '4/C11',
- 'technique': 'Coq proof by structural induction on types (token level) + vm_compute differential correspondence of a '
-              'text-level model with the real renderer and of a Coq annotation evaluator with Python eval()',
- 'text': 'Coq theorems render_resolves_tok (every type without a TypedDict: the token-level rendering evaluates, in any '
-         'namespace that binds its names, to the type up to moving None last in unions), imports_cover_names, '
-         'td_stub_resolves, render_resolves_partial (text level under a checked premise); C11_full kept as a Definition and '
-         'refuted outside six exact finding classes. Every run renders generated modules with the real code, evaluates the '
-         'stub in its own namespace and compares text, names and denoted types in Coq.'}
+ 'technique': 'Coq proof by structural induction on types (token level) + vm_compute differential correspondence of '
+              'a text-level model with the real renderer and of a Coq annotation evaluator with Python eval()',
+ 'text': 'Partial. Coq text-level model of the renderer (Model/Render.v, byte-exact against the real stub text) and '
+         'theorems: render_resolves_tok / _repr (token level, all TypedDict-free types), imports_cover_names, '
+         'render_parse_back (the tokenizer and parser invert the printer), strip_is_tokenwise (the repaired '
+         'single-pass module-prefix stripping acts word by word: stripping the text = printing from the class table '
+         'with stripped names), render_resolves_text (the text level WITHOUT a per-case premise, under the checkable '
+         'condition text_ok), td_stub_resolves_flat_partial (generated class stubs of flat TypedDicts resolve to a '
+         'corrb-equal type); C11_full and td_stub_resolves_full are kept as Definitions (C11_full is refuted inside '
+         'seven recorded finding classes). Tie: real AttributeStub/FunctionStub/ModuleStub.render on a fixture '
+         "package with overlapping module names; every annotation evaluated in the stub's own namespace; model text "
+         'compared byte for byte.'}
